@@ -347,6 +347,10 @@ class Oracle:
                     reasons.append('unknown-type')
             elif k == 'enum':
                 reasons += self.enum_issues(node)
+            elif k == 'sof':
+                t = node[2]        # the element type: its tag is resolved like a component's (F122 repaired)
+                if t[1] is not None and t[1][2] == 'i' and self.untagged_choice(with_tag(t, None)):
+                    reasons.append('other:implicit-choice')
             elif k == 'constr':
                 ids = [c[0] for c in node[3] + node[5]]
                 if len(set(ids)) != len(ids):
@@ -729,8 +733,7 @@ def inject_faults(rng, M, limit):
 
     # --- rejection reasons outside the catalogue (correspondence only, not judged by the P leg)
     cands = [(ti, path) for ti, path, node in all_nodes(M)
-             if node[1] is not None and orc.untagged_choice(with_tag(node, None))
-             and not (path and path[-1][0] == 'e')]          # SEQUENCE OF elements are never tag-fixed
+             if node[1] is not None and orc.untagged_choice(with_tag(node, None))]     # components, top-level types, SEQUENCE OF elements
     rng.shuffle(cands)
     for ti, path in cands[:2]:
         out.append(('other:implicit-choice', M[1][ti][0],
